@@ -45,18 +45,32 @@ class Chooser:
 
 
 def children(choices, points, start, bound):
-    """Alternatives to explore after an execution that replayed choices[:start]."""
+    """Alternatives to explore after an execution that replayed choices[:start].
+
+    bound = p: at most p preemptions, switches at blocking points are free and unbounded (context bounding).
+    bound = (p, f): additionally at most f non-default choices at blocking points (delay bounding of the free switches;
+    for scenarios in which many threads wake up together and the orders of their wake-ups would otherwise multiply)."""
     out = []
+    fbound = None
+    if isinstance(bound, tuple):
+        bound, fbound = bound
     pre = 0
+    free = 0
     costs = []
     for i, (n, cur) in enumerate(points):
-        costs.append(pre)
-        if choices[i][0] != 0 and cur:
-            pre += 1
+        costs.append((pre, free))
+        if choices[i][0] != 0:
+            if cur:
+                pre += 1
+            else:
+                free += 1
     for i in range(start, len(points)):
         n, cur = points[i]
-        cost = costs[i] + (1 if cur else 0)
-        if cost > bound:
+        p, f = costs[i]
+        if cur:
+            if p + 1 > bound:
+                continue
+        elif fbound is not None and f + 1 > fbound:
             continue
         for alt in range(1, n):
             out.append(choices[:i] + [(alt, n)])
